@@ -2,7 +2,7 @@
 (* Arithmetic of the prime field F_q on BigNat values in [0,q): the           *)
 (* mathematical definition every field entry point is judged against.        *)
 (* q is passed explicitly so that one TLC run can serve several fields.       *)
-EXTENDS BigNat
+EXTENDS BigNat, SequencesExt
 
 InField(q, a) == IsNat(a) /\ Lt(a, q)
 
@@ -32,10 +32,6 @@ FromMont(q, R, raw) == MulMod(raw, InvMod(Mod(R, q), q), q)
 ToMont(q, R, a)     == MulMod(a, Mod(R, q), q)
 
 \* pure definitions used by the small-constant model checking (no accelerator needed)
-RECURSIVE FSumSeq(_,_,_)
-FSumSeq(q, s, i) == IF i > Len(s) THEN Zero ELSE FAdd(q, s[i], FSumSeq(q, s, i+1))
-FSum(q, s) == FSumSeq(q, s, 1)
-RECURSIVE FDotSeq(_,_,_,_)
-FDotSeq(q, s, t, i) == IF i > Len(s) THEN Zero ELSE FAdd(q, FMul(q, s[i], t[i]), FDotSeq(q, s, t, i+1))
-FDot(q, s, t) == FDotSeq(q, s, t, 1)
+FSum(q, s) == FoldLeft(LAMBDA acc, x : FAdd(q, acc, x), Zero, s)
+FDot(q, s, t) == FoldLeft(LAMBDA acc, i : FAdd(q, acc, FMul(q, s[i], t[i])), Zero, [i \in 1..Len(s) |-> i])
 =============================================================================
